@@ -1,6 +1,25 @@
-//! vh — verification harness for rust-minidump (see /verif/DESIGN.md).
+//! vh — verification harness for rust-minidump (see /verif/DESIGN.md and README.md here).
 pub mod alloc;
 pub mod core;
+
+/// dump models + serialisation through minidump-synth (C02, C14, C15, C19, C03)
+pub mod dumpgen;
+/// seed dumps containing every stream type (C01, C03, C20)
+pub mod seeds;
+/// the "do everything a consumer can do" driver for a parsed minidump (C01)
+pub mod exercise;
+/// generated stacks with ground-truth call chains (C04, C05)
+pub mod stackgen;
+/// symbol-file text generators (C09, C11, C03)
+pub mod symgen;
+/// reference interpreter for STACK CFI (C06)
+pub mod refcfi;
+/// reference interpreter for STACK WIN (C07)
+pub mod refwin;
+/// controlled poll scheduler for real futures (C12, C13)
+pub mod sched;
+/// explicit-state model of the streaming parse buffer machine (C10, C09)
+pub mod bufmodel;
 
 #[global_allocator]
 static GLOBAL: alloc::Tracking = alloc::Tracking;
